@@ -17,6 +17,7 @@ func init() {
 }
 
 func runC02(c *Ctx) {
+	defer checkConfigGetters(c, "C02.R7", "GetSanitationWhiteList", "GetAuthorizeCodeLifespan")
 	const role = "code-validate"
 	defer c02Whitelist(c)
 	defer c02Setters(c)
